@@ -269,25 +269,133 @@ class Ctx:
 
 
 # ------------------------------------------------------------------ proving
+def _vars(e, memo):
+    """names of the uninterpreted constants of a z3 expression (memoised on ast id)"""
+    i = e.get_id()
+    if i in memo:
+        return memo[i]
+    out = set()
+    if z3.is_const(e):
+        if e.decl().kind() == z3.Z3_OP_UNINTERPRETED:
+            out = {str(e)}
+    else:
+        for ch in e.children():
+            out |= _vars(ch, memo)
+    memo[i] = out
+    return out
+
+
+def _is_defined_var(n):
+    return '!' in n or n.startswith(('c_', 's_', 'th_'))
+
+
+def _stages(hyps, goal):
+    """hypothesis subsets tried in order (dropping hypotheses is always sound):
+    none; the definitions of the fresh variables the goal mentions (transitively); everything"""
+    memo = {}
+    gv = _vars(goal, memo)
+    hv = [(_vars(h, memo), h) for h in hyps]
+    want = {v for v in gv if _is_defined_var(v)}
+    chosen = []
+    changed = True
+    used = set()
+    while changed:
+        changed = False
+        for k, (vs, h) in enumerate(hv):
+            if k in used:
+                continue
+            if vs & want:
+                used.add(k); chosen.append(h); changed = True
+                want |= {v for v in vs if _is_defined_var(v)}
+    stages = [[]]
+    if chosen and len(chosen) < len(hyps):
+        stages.append(chosen)
+    stages.append(list(hyps))
+    return stages
+
+
+def _abstract_shared(formulas, skip=None):
+    """generalisation tactic: replace every maximal arithmetic subterm that occurs in at least two of the
+    formulas by a fresh constant.  If the generalised query is unsat so is the original (validity of a
+    generalisation implies validity of the instance)."""
+    occ = {}
+    def collect(e, seen):
+        i = e.get_id()
+        if i in seen:
+            return
+        seen.add(i)
+        if z3.is_app(e) and e.num_args() > 0:
+            if e.sort() == z3.RealSort():
+                occ.setdefault(i, [0, e])
+            for ch in e.children():
+                collect(ch, seen)
+    per = []
+    for f in formulas:
+        seen = set()
+        collect(f, seen)
+        per.append(seen)
+    for seen in per:
+        for i in seen:
+            if i in occ:
+                occ[i][0] += 1
+    shared = {i for i, (n, e) in occ.items() if n >= 2}
+    if not shared:
+        return None
+    subs = {}
+    def pick(e, done):
+        i = e.get_id()
+        if i in done:
+            return
+        done.add(i)
+        if i in shared and (skip is None or i not in skip):
+            subs[i] = e
+            return
+        for ch in e.children():
+            pick(ch, done)
+    done = set()
+    for f in formulas:
+        pick(f, done)
+    if not subs:
+        return None
+    pairs = [(e, z3.Real(f"abs!{k}")) for k, e in enumerate(subs.values())]
+    if skip is not None:
+        skip |= set(subs.keys())
+    return [z3.substitute(f, *pairs) for f in formulas], len(pairs)
+
+
 def prove(hyps, goal, timeout_ms, safety_hyps=()):
-    """try the back ends in order; returns dict(verdict, by, secs, model)
-    1. z3 (short budget)  2. ideal-membership certificate checked by z3 (equality goals)
-    3. z3 (full budget)   4. z3 nlsat tactic   5. cvc5"""
+    """staged over growing hypothesis sets; per stage: z3 (short budget), then an ideal-membership
+    certificate checked by z3 (equality goals).  The last stage adds z3 with the full budget, the nlsat
+    tactic and cvc5.  Only the last stage (all hypotheses) may refute."""
     from . import cas
     neg = z3.Not(goal)
     total = 0.0
     quick = min(1500, timeout_ms)
-    v, m, t = core.z3_check(hyps, neg, quick)
-    total += t
-    if v == 'unsat':
-        return dict(verdict='proved', by='z3', secs=total)
-    if v == 'sat':
-        return dict(verdict='refuted', by='z3', secs=total, model=m)
-    t0 = time.time()
-    ok, info = cas.cert_prove(list(hyps) + list(safety_hyps), goal, budget_s=min(30.0, timeout_ms / 1000.0))
-    total += time.time() - t0
-    if ok:
-        return dict(verdict='proved', by='cert+z3', secs=total)
+    stages = _stages(hyps, goal)
+    info = None
+    for si, hs in enumerate(stages):
+        last = si == len(stages) - 1
+        v, m, t = core.z3_check(hs, neg, quick)
+        total += t
+        if v == 'unsat':
+            return dict(verdict='proved', by='z3', secs=total)
+        if v == 'sat' and last:
+            return dict(verdict='refuted', by='z3', secs=total, model=m)
+        t0 = time.time()
+        ok, info = cas.cert_prove(list(hs) + list(safety_hyps), goal, budget_s=min(15.0 if not last else 30.0, timeout_ms / 1000.0))
+        total += time.time() - t0
+        if ok:
+            return dict(verdict='proved', by='cert+z3', secs=total)
+    skip = set()
+    for level in range(3):      # progressively finer generalisations (shared subterms of shared subterms)
+        ab = _abstract_shared(list(hyps) + [neg], skip)
+        if ab is None:
+            break
+        fs, n = ab
+        v, m, t = core.z3_check(fs[:-1], fs[-1], min(3000, timeout_ms))
+        total += t
+        if v == 'unsat':
+            return dict(verdict='proved', by='z3-abs', secs=total)
     if timeout_ms > quick:
         v, m, t = core.z3_check(hyps, neg, timeout_ms)
         total += t
@@ -310,13 +418,26 @@ def prove(hyps, goal, timeout_ms, safety_hyps=()):
     return dict(verdict='undecided', by='-', secs=total, cert=str(info)[:100])
 
 
-def model_inputs(m, ctx):
+def model_inputs(m, ctx, pairs=None):
     out = {}
     for name, v in ctx.inputs.items():
         try:
             out[name] = core.model_value(m, v)
         except Exception:
             out[name] = 0.0
+    # an input angle is replayed as the angle of its (cos, sin) pair: the abstraction only knows the pair
+    for name in ctx.angles:
+        best = None
+        for (atom, D), (cz, sz) in (pairs or {}).items():
+            if atom == name and (best is None or D > best[0]):
+                best = (D, cz, sz)
+        if best is not None:
+            try:
+                cval, sval = core.model_value(m, best[1]), core.model_value(m, best[2])
+                out['th_' + name] = best[0] * math.atan2(sval, cval)
+                out['__exact_angles__'] = 1.0
+            except Exception:
+                pass
     try:
         out['__pi__'] = core.model_value(m, PI)
     except Exception:
@@ -336,6 +457,10 @@ def _exc_origin(ex):
     return f"engine:{os.path.basename(tb[-1].filename)}:{tb[-1].lineno}"
 
 
+def E_static_assume(p):
+    return p.assume
+
+
 def run_unit(unit, tier='quick'):
     """explore + discharge one unit; returns a JSON-able dict"""
     t0 = time.time()
@@ -351,7 +476,7 @@ def run_unit(unit, tier='quick'):
     from . import cas
     if unit.opts.get('cas', True):
         E.hooks['cut_sqrt'] = lambda t: cas.sqrt_cut(t, E)
-        E.hooks['cut_div'] = lambda t, a, b: cas.div_cut(t, a, b, E)
+        E.hooks['cut_div'] = lambda a, b: cas.div_cut(a, b, E)
     else:
         E.hooks.pop('cut_sqrt', None)
         E.hooks.pop('cut_div', None)
@@ -367,6 +492,7 @@ def run_unit(unit, tier='quick'):
 
     def on_path(p):
         p.goals = list(ctx.goals)
+        p.extra_info = dict(pairs=dict(trig.A.pairs))
         p.observed = dict(ctx.observed)
         p.notes = list(ctx.notes)
         if p.outcome[0] == 'raises':
@@ -404,6 +530,7 @@ def run_unit(unit, tier='quick'):
         hyps = list(p.assume) + list(p.pc) + list(p.defs) + list(p.extra)
         links = list(p.links)
         safety_hyps = [cond for (kind, cond, site) in p.oblig]
+        base_assume = list(E_static_assume(p))
         res['axioms'] = sorted(set(res['axioms']) | p.axioms)
         for ef in p.effects:
             if list(ef) not in res['effects']:
@@ -419,7 +546,7 @@ def run_unit(unit, tier='quick'):
             res['covers'].append(cover)
             continue
         if v == 'sat':
-            cover['inputs'] = model_inputs(m, ctx)
+            cover['inputs'] = model_inputs(m, ctx, p.extra_info['pairs'])
             obs = {}
             for k, val in p.observed.items():
                 try:
@@ -432,18 +559,23 @@ def run_unit(unit, tier='quick'):
         res['covers'].append(cover)
         items = [(n, g, k) for (n, g, k) in p.goals]
         for (kind, cond, site) in p.oblig:
-            items.append((f"safe:{kind}", cond, 'safety'))
+            items.append((_Marked(f"safe:{kind}", site[1]), cond, 'safety'))
         for (name, g, kind) in items:
             o = ob(str(name)); o['instances'] += 1; o['kind'] = kind
-            g = z3.simplify(g) if not z3.is_false(g) else g
-            if z3.is_true(g):
+            gs = z3.simplify(g) if not z3.is_false(g) else g
+            if z3.is_false(gs):
+                g = gs
+            if z3.is_true(gs):
                 o['proved'] += 1; o['by']['trivial'] = o['by'].get('trivial', 0) + 1
                 continue
             if kind == 'engine':
                 o['undecided'] += 1; res['status'] = 'engine-error'
                 continue
             hy = hyps
-            if isinstance(name, _Marked):
+            if isinstance(name, _Marked) and isinstance(name.nassume, tuple):
+                na, npc, nd = name.nassume        # safety: only what precedes the operation
+                hy = list(p.assume[:na]) + list(p.pc[:npc]) + list(p.defs[:nd]) + list(p.extra)
+            elif isinstance(name, _Marked):
                 hy = list(p.assume[:name.nassume]) + list(p.pc) + list(p.defs) + list(p.extra)
             sh = safety_hyps if kind != 'safety' else ()
             r = prove(hy, g, timeout_ms, sh)
@@ -465,7 +597,7 @@ def run_unit(unit, tier='quick'):
                 if o['witness'] is None:
                     w = dict(path=cover['taken'], by=r['by'])
                     if r.get('model') is not None:
-                        w['inputs'] = model_inputs(r['model'], ctx)
+                        w['inputs'] = model_inputs(r['model'], ctx, p.extra_info['pairs'])
                     w['goal'] = str(g)[:400]
                     o['witness'] = w
             else:
